@@ -96,9 +96,12 @@ def toksAlter (d : Gen.D) (t : TableName) (ops : List AlterOp) : List Tok :=
 /-- `SHOW COLUMNS FROM t, … [WHERE e]` -/
 def toksShowColumns (d : Gen.D) (fr : List FromTable) (wh : Option Expr) : List Tok :=
   opTok "SHOW" :: opTok "COLUMNS" :: (TQ2.toksFrom4 d noX (some fr) ++ TQ2.toksOptE4 d noX "WHERE" wh)
-/-- `CREATE TABLE t AS <query>` -/
+/-- a query as a statement: of the larger fragment `FragQ2`, or `[WITH …]` in front of a query of `FragQ` (the data-change development) -/
+def toksSel (d : Gen.D) (q : Query) : List Tok := if TQ2.FragQ2 d q then TQ2.toksQ2 d noX q else TDM.toksStmt d (.select q)
+def selOK (d : Gen.D) (q : Query) : Bool := TQ2.FragQ2 d q || TDM.FragStmt d (.select q)
+/-- `CREATE TABLE t AS [WITH …] <query>` -/
 def toksCreateAs (d : Gen.D) (t : TableName) (q : Query) : List Tok :=
-  opTok "CREATE" :: opTok "TABLE" :: tbl t :: opTok "AS" :: TQ2.toksQ2 d noX q
+  opTok "CREATE" :: opTok "TABLE" :: tbl t :: opTok "AS" :: toksSel d q
 
 /-- **the token-level printer of the new statement classes** -/
 def toksRest (d : Gen.D) : Stmt → List Tok
@@ -128,7 +131,7 @@ def alterOpOK (d : Gen.D) : AlterOp → Bool
   | .renameColumn f t => TD.nameOK f && TD.nameOK t
   | .dropColumn c => TD.nameOK c
   | .dropPartition _ p => TDM.partOK d (some p)
-/-- the target of CREATE TABLE … AS: its token is not the word `AS` … nor taken for `IF` -/
+/-- **the fragment of the new statement classes** -/
 def FragRest (d : Gen.D) : Stmt → Bool
   | .dropTable _ t => TDM.tblOKD t
   | .truncate t => TDM.tblOKD t
@@ -140,7 +143,7 @@ def FragRest (d : Gen.D) : Stmt → Bool
   | .showDatabases => true
   | .showTables => true
   | .showColumns fr wh => TQ2.fromOK4 d (some fr) && TQ2.FragO4 d wh
-  | .createTableAs t q => TDM.tblOKD t && TQ2.FragQ2 d q
+  | .createTableAs t q => TDM.tblOKD t && selOK d q
   | _ => false
 
 /-! ### the union -/
@@ -154,7 +157,7 @@ def FragAny (d : Gen.D) (s : Stmt) : Bool :=
 /-- **the token-level printer of the union** (the renderings of the query developments agree where both apply:
 `C03.fragQ_sub_fragQ2`) -/
 def toksAny (d : Gen.D) : Stmt → List Tok
-  | .select q => if TQ2.FragQ2 d q then TQ2.toksQ2 d noX q else TDM.toksStmt d (.select q)
+  | .select q => toksSel d q
   | .createTable c => TD.toksCreate d c
   | .insertValues h vs => TDM.toksStmt d (.insertValues h vs)
   | .insertSelect h q => TDM.toksStmt d (.insertSelect h q)
